@@ -196,6 +196,8 @@ def _report(pid: str, mod, agg: dict, problems: list[str], tier: str, seed: int,
     if agg["judged"] < floor:
         inconclusive.append(f"only {agg['judged']} judged executions (< floor {floor})")
     for name in getattr(mod, "REQUIRED_COUNTERS", []):
+        if agg["counters"].get("missing." + name.removeprefix("enter."), 0) > 0 or agg["counters"].get("missing." + name, 0) > 0:
+            continue  # the watched internal function no longer exists under that name
         if agg["counters"].get(name, 0) <= 0:
             inconclusive.append(f"deciding monitor/counter '{name}' was never reached")
     if agg["evaluations"] and agg["generator_invalid"] > getattr(mod, "MAX_INVALID_FRAC", 0.05) * agg["evaluations"]:
